@@ -16,6 +16,11 @@ type LargeCase struct {
 	Value   int  `json:"value"`             // length of one incompressible field value
 	Prio    bool `json:"prio,omitempty"`    // HEADERS carries a priority section
 	End     bool `json:"end,omitempty"`     // HEADERS carries END_STREAM
+	// Stall (with Reverse): the client's receive path stalls while the relay writes the
+	// first frame of the block; meanwhile the client uploads DATA, so the relay also owes
+	// it WINDOW_UPDATEs; then the path recovers. Whatever the relay writes next must still
+	// be the block's CONTINUATION frames.
+	Stall bool `json:"stall,omitempty"`
 }
 
 func runLarge(c LargeCase) kit.Verdict {
@@ -66,7 +71,20 @@ func runLargeOnce(c LargeCase, bound time.Duration) (v kit.Verdict, slow bool) {
 		}
 		fields = []h2kit.Field{{N: ":status", V: "200"}, big, {N: "x-after", V: "1"}}
 	}
+	if c.Stall && c.Reverse {
+		s.Duplex.StallRelayWrites()
+	}
 	S.WriteHeaders(h2kit.HeadersSpec{Stream: 1, Pad: -1, Prio: prio, EndStream: c.End, Fields: fields})
+	if c.Stall && c.Reverse {
+		// the relay's writer is inside the write of the first frame ...
+		kit.Eventually(bound, func() bool { return s.Duplex.StalledWrites() >= 1 })
+		// ... the relay reads the client's DATA and queues up to return credit ...
+		R.WriteData(1, kit.Bytes(3, 100), -1, false)
+		kit.Eventually(bound, func() bool { return s.Duplex.Pending() == 0 })
+		time.Sleep(5 * time.Millisecond) // (sets the scene only; not part of the oracle)
+		// ... and the client's receive path recovers
+		s.Duplex.ResumeRelayWrites()
+	}
 	// a second, small block: the receiver's HPACK state must still be in step
 	small := append(append([]h2kit.Field(nil), fields[:len(fields)-2]...), h2kit.Field{N: "x-after", V: "1"})
 	S.WriteHeaders(h2kit.HeadersSpec{Stream: 3, Pad: -1, EndStream: true, Fields: small})
@@ -79,6 +97,10 @@ func runLargeOnce(c LargeCase, bound time.Duration) (v kit.Verdict, slow bool) {
 		slow = true
 	}
 	R.With(func(r *h2kit.Rec) {
+		for _, f := range r.Foreign {
+			v.Addf("C08/header-fields/continued-block/foreign-frame-between-fragments", "%s", f)
+			break
+		}
 		// an endpoint refuses a frame above the maximum it announced (FRAME_SIZE_ERROR):
 		// such a block is not received at all
 		for _, vi := range r.Violations {
@@ -107,7 +129,7 @@ func runLargeOnce(c LargeCase, bound time.Duration) (v kit.Verdict, slow bool) {
 
 var propLargeBlocks = &kit.Prop[LargeCase]{
 	ID: "C08", Name: "large-blocks",
-	Rule: "ALL header blocks whose incompressible field value is within +-12 octets of the receiver's maximum frame size (nothing announced / 20 000), with and without a priority section and END_STREAM, either direction, followed by a small block; the receiver must get the same fields, flags and priority, in frames it would accept (none above the maximum it announced), and stay in HPACK step; non-trivial = every case (the relay must continue the block over several frames)",
+	Rule: "ALL header blocks whose incompressible field value is within +-12 octets of the receiver's maximum frame size (nothing announced / 20 000), with and without a priority section and END_STREAM, either direction, followed by a small block, plus blocks of 20 000 / 40 000 / 100 000 octets written while the receiving client stalls mid-block and uploads DATA (the relay owes it WINDOW_UPDATEs); the receiver must get the same fields, flags and priority, in frames it would accept (none above the maximum it announced, nothing between HEADERS and its CONTINUATIONs), and stay in HPACK step; non-trivial = every case (the relay must continue the block over several frames)",
 	Run:  runLarge,
 	Classes: func(c LargeCase) []string {
 		var out []string
@@ -116,6 +138,9 @@ var propLargeBlocks = &kit.Prop[LargeCase]{
 		}
 		if c.Reverse {
 			out = append(out, "server-sends")
+		}
+		if c.Stall {
+			out = append(out, "receiver-stalls-mid-block-while-uploading")
 		}
 		return out
 	},
@@ -126,6 +151,13 @@ func TestLargeBlocks(t *testing.T) {
 		t.Skip("sequential enumeration")
 	}
 	propLargeBlocks.Enumerate(t, func(yield func(LargeCase) bool) {
+		for _, value := range []int{20000, 40000, 100000} {
+			for _, prio := range []bool{false, true} {
+				if !yield(LargeCase{Reverse: true, Stall: true, Value: value, Prio: prio, End: value == 40000}) {
+					return
+				}
+			}
+		}
 		for _, max := range []int{0, 20000} {
 			eff := max
 			if eff == 0 {
